@@ -89,3 +89,11 @@ Definition colour_f32 (v : N) : Z * Z :=
     let '(m64, e64) := round_rat 53 (Z.of_N v) 255 in
     if (0 <=? e64)%Z then round_rat 24 (m64 * 2 ^ e64)%Z 1 else round_rat 24 m64 (2 ^ (- e64))%Z
   end.
+
+(* ---------- cell-style fingerprint (model.update_cell_styles) ---------- *)
+(* the printed fields, in order: str(vertical), str(first_indent), str(left_indent), str(right_indent),
+   str(text_inset), str(text_wrap) [, str(r), str(g), str(b)] [, image filename].
+   Repaired code (fixes/C15-2-cell-style-fingerprint.patch): the key is the tuple of the fields.
+   Pinned code: their concatenation without separators. *)
+Definition fingerprint (fields : list str) : list str := fields.
+Definition fingerprint_pinned (fields : list str) : str := concat fields.
